@@ -717,7 +717,7 @@ impl Prop for C20 {
     fn meta() -> Meta {
         Meta {
             level: "exploration",
-            rule: "Each run starts the real abasic-lsp process and a simulated editor performs initialize/initialized, then a PRNG-driven history of 1-40 messages over 1-3 URIs: didOpen, didChange (full sync; also with an empty change list), semanticTokens/full (also for a URI never opened), didChange before didOpen, re-didOpen, an unknown notification and an unknown request, bursts of 2-8 didChange pipelined without reading in between, finally shutdown/exit. Document texts come from an editing simulator: a generated program mutated by keystroke-like edits (insert/delete a character, duplicate a line, empty a line to its bare number, duplicate a line number with an emptied or untokenizable second definition, break a string, paste non-ASCII incl. astral characters in front of errors, unnumbered/blank lines, token and character soup, LF<->CRLF, occasionally nesting up to 100000 deep). Oracle: the process answers every didOpen / non-empty didChange with exactly one publishDiagnostics for that URI (in order, also when pipelined) and every semanticTokens request with one response of the same id; every diagnostic range lies on an existing line with start <= end <= the line's length in UTF-16 units; semantic tokens decode to ordered non-overlapping in-line tokens with types inside the legend of the server's own initialize reply; the multiset of (severity, message, line) equals the in-process analyzer's messages for that text, and where the analyzer's byte range falls on character boundaries the reported range equals its UTF-16 conversion. distinct_nontrivial = distinct message-history hashes among sessions with >= 3 messages and >= 1 document.",
+            rule: "Each run starts the real abasic-lsp process and a simulated editor performs initialize (one of five client capability sets: empty, utf-16 only, utf-8 or utf-32 offered first, VS-Code-like) / initialized, then a PRNG-driven history of 1-40 messages over 1-3 URIs: didOpen, didChange (full sync; also with an empty change list), semanticTokens/full (also for a URI never opened), didChange before didOpen, re-didOpen, an unknown notification and an unknown request, bursts of 2-8 didChange pipelined without reading in between, finally shutdown/exit. Document texts come from an editing simulator: a generated program mutated by keystroke-like edits (insert/delete a character, duplicate a line, empty a line to its bare number, duplicate a line number with an emptied or untokenizable second definition, break a string, paste non-ASCII incl. astral characters and U+FEFF in front of errors, a byte order mark at the start of the document, unnumbered/blank lines, token and character soup, LF<->CRLF, occasionally nesting up to 100000 deep). Oracle: the process answers every didOpen / non-empty didChange with exactly one publishDiagnostics for that URI (in order, also when pipelined) and every semanticTokens request with one response of the same id; every diagnostic range lies on an existing line with start <= end <= the line's length in UTF-16 units; semantic tokens decode to ordered non-overlapping in-line tokens with types inside the legend of the server's own initialize reply; the multiset of (severity, message, line) equals the in-process analyzer's messages for that text, and where the analyzer's byte range falls on character boundaries the reported range equals its UTF-16 conversion. distinct_nontrivial = distinct message-history hashes among sessions with >= 3 messages and >= 1 document.",
             real: &["abasic-lsp binary (main loop, lsp-server framing and I/O threads) built from /repo without the verification cfg", "abasic-core analyzer (in the server and, as oracle, in-process)"],
             stub: &["the editor (client side of the protocol, document editing)"],
             assumptions: &[
